@@ -264,6 +264,8 @@ TEMPLATES = [
     [{"frozen": True, "hooks": "none", "user_setattr": False}, {"api": "define", "frozen": False}, {"frozen": False}],
     [{"frozen": True, "hooks": "none", "user_setattr": False}, {"kind": "plain"}, {"frozen": False, "user_setattr": True}],
     [{"frozen": True, "hooks": "some", "user_setattr": False}],
+    [{"frozen": True, "hooks": "none", "user_setattr": False},
+     {"frozen": False, "user_setattr": True, "auto_detect": None, "api": "attrs", "hooks": "some"}, {"frozen": False}],
     # own __setattr__ with and without hooks below a hooked class
     [{"hooks": "some", "frozen": False, "user_setattr": False}, {"user_setattr": True, "auto_detect": True, "frozen": False}],
     [{"hooks": "some", "frozen": False, "user_setattr": False},
@@ -463,6 +465,17 @@ def confused_shape(cls):
                 and "__attrs_attrs__" not in c.__bases__[0].__dict__):
             return True
     return False
+
+
+def frozen_base_hidden_shape(bt):
+    """The class body defines __setattr__, a base class is frozen, frozen= is not passed, and hooks are asked
+    for (class level or any field): attr.s reads the frozen-ness off cls.__setattr__, which the body hides."""
+    s = bt.spec
+    if not (s["user_setattr"] and not s["frozen"] and bt.base is not None and bt.base.frozen):
+        return False
+    if s["on_setattr"] not in (None, "NO_OP"):
+        return True
+    return bt.cls is not None and any(a.on_setattr is not None for a in attr.fields(bt.cls))
 
 
 # --------------------------------------------------------------------------------------
@@ -675,18 +688,24 @@ def cases_for(bt, sub_seed, tier):
                 seen.append({"ops": [(n_, repr(v)) for n_, v in ops], "validators": False,
                              "fault": "%d:KeyMarker" % j, "steps": js4})
     meta_t, meta_js = meta_entries(bt, kw, fb, counter)
-    flag = confused_shape(cls)
+    shapes = []
+    if confused_shape(cls):
+        shapes.append(("hooked-attrs-base/plain-class/slotted-attrs-class", {"resolved_owner_is_other_attrs_class": True}))
+    if frozen_base_hidden_shape(bt):
+        shapes.append(("frozen-base/class-body-__setattr__/hooks", {"definition": "accepted"}))
+    flag = bool(shapes)
     body = "%s true %s %s %s" % (chain_t, enc_state(init_state), lst(runs_t), lst(meta_t))
     term = "(Build_case %s %s true)" % (body, b(flag))
     resolved = next((c for c in cls.__mro__ if "__setattr__" in c.__dict__), object)
     obs = {"initial_state": js_state(init_state), "runs": seen, "define_default": meta_js,
-           "resolved_setattr_owner": resolved.__name__, "slotted_confused_shape": flag}
+           "resolved_setattr_owner": resolved.__name__, "flagged_shapes": [n for n, _ in shapes]}
     facts = {"layer": "model", "definition": "accepted"}
     out = [Case(term, inp, obs, sig=facts, nontrivial=resolved is not object, key=term)]
     if flag:
         pterm = "(Build_case %s false false)" % body
-        pf = {"layer": "property", "shape": "hooked-attrs-base/plain-class/slotted-attrs-class",
-              "resolved_owner_is_other_attrs_class": True}
+        pf = {"layer": "property", "shape": "+".join(n for n, _ in shapes)}
+        for _n, extra_facts in shapes:
+            pf.update(extra_facts)
         out.append(Case(pterm, dict(inp, layer="property"), obs, sig=pf, nontrivial=True, key=pterm))
     return out
 
@@ -713,6 +732,8 @@ def note(bt):
         _dist["frozen=%s" % bt.frozen] += 1
         if confused_shape(bt.cls):
             _dist["slotted_confused_shape"] += 1
+        if frozen_base_hidden_shape(bt):
+            _dist["frozen_base_hidden_shape"] += 1
     for f in s["fields"]:
         _dist["fld_on_setattr=%s" % f["on_setattr"]] += 1
         _dist["conv=%s" % (f["converter"] and (f["converter"][0] + ("+self" if f["converter"][0] == "conv" and f["converter"][1] else "")
